@@ -140,6 +140,14 @@ def read_mode_gamma_layout(src):
                       and e.left.id in names and names.index(e.left.id) == 1
                       and isinstance(e.right, ast.Constant) and e.right.value == 2):
                     layout.append("QGammaSq")
+                elif (isinstance(e, ast.BinOp) and isinstance(e.op, ast.Mult) and isinstance(e.left, ast.Name)
+                      and isinstance(e.right, ast.Name) and e.left.id == e.right.id and e.left.id in names
+                      and names.index(e.left.id) == 1):
+                    layout.append("QGammaSq")          # gamma * gamma
+                elif (isinstance(e, ast.Call) and ast.unparse(e.func) == "numpy.square" and len(e.args) == 1
+                      and not e.keywords and isinstance(e.args[0], ast.Name) and e.args[0].id in names
+                      and names.index(e.args[0].id) == 1):
+                    layout.append("QGammaSq")          # numpy.square(gamma)
                 else:
                     raise Untranslatable("unrecognised mode_gamma entry: %s" % ast.dump(e))
         else:
